@@ -81,6 +81,29 @@ type Run struct {
 	voffset  time.Duration
 	// Waits counts lock acquisitions that had to wait.
 	Waits int
+	// Policy, if set, replaces the choice list: at every point with more than one enabled
+	// thread it returns the index (into enabled) of the thread to run. No Points are kept
+	// (runs under a policy can have thousands of threads); MaxSteps bounds the run.
+	Policy   func(enabled []int, current int) int
+	MaxSteps int
+}
+
+// RoundRobin is the policy "one step each in thread order": every started thread stays in
+// flight until all are done (the widest overlap a schedule can produce).
+func RoundRobin(enabled []int, current int) int {
+	best, first := -1, 0
+	for i, id := range enabled {
+		if id < enabled[first] {
+			first = i
+		}
+		if id > current && (best < 0 || id < enabled[best]) {
+			best = i
+		}
+	}
+	if best >= 0 {
+		return best
+	}
+	return first
 }
 
 // Now replaces time.Now in instrumented files: the real clock plus the virtual time that has
@@ -105,6 +128,9 @@ func (r *Run) waited() {
 // Clock is a logical time that advances every time a thread is resumed; usable as
 // call/return timestamps of operations inside a controlled run.
 func (r *Run) Clock() int64 { return r.clock }
+
+// Steps is the number of thread resumptions of the run.
+func (r *Run) Steps() int { return int(r.clock) }
 
 // Current returns the Run in progress (nil outside an exploration).
 func Current() *Run { return active.Load() }
@@ -219,7 +245,23 @@ func (r *Run) Start() {
 			return
 		}
 		pick := 0
-		if len(en) > 1 {
+		if len(en) > 1 && r.Policy != nil {
+			ids := make([]int, len(en))
+			for i, t := range en {
+				ids[i] = t.id
+			}
+			c := -1
+			if r.cur != nil {
+				c = r.cur.id
+			}
+			pick = r.Policy(ids, c)
+			r.nSteps++
+			if r.MaxSteps > 0 && r.nSteps >= r.MaxSteps {
+				r.Horizon = true
+				r.abort()
+				return
+			}
+		} else if len(en) > 1 {
 			idx := len(r.Points)
 			if idx < len(r.prefix) {
 				pick = r.prefix[idx]
